@@ -23,6 +23,7 @@ Verdicts
 """
 import hashlib
 import json
+from fractions import Fraction
 import math
 import multiprocessing
 import os
@@ -260,6 +261,209 @@ def run_pipeline(drv, paths, workdir, tag):
     nsh = max(1, min(vf.NCPU, len(paths)))
     lines = c03.run_sharded(drv, "gen", paths, workdir, tag, nsh=nsh)
     return [parse_driver_line(l if l is not None else "<missing>") for l in lines]
+
+
+def parse_dump(text):
+    """<path>.dump of harness/c03_model_driver.cpp -> {"type", "states": [(index, first eq)], "variables": [(index, type,
+    has_init, first eq)], "eqs": [{"pos", "type", "nla", "vars": [(kind, index)], "deps", "sibs", "srb"}], "asts": {pos: line}}"""
+    d = {"type": None, "states": [], "variables": [], "eqs": [], "asts": {}}
+
+    def ints(x):
+        return [] if x == "-" else [int(y) for y in x.split(",") if y != "-"]
+    for line in text.split("\n"):
+        if line.startswith("T "):
+            d["type"] = line[2:].strip()
+        elif line.startswith("S "):
+            f = line.split()
+            d["states"].append((int(f[1]), None if f[2] == "-" else int(f[2])))
+        elif line.startswith("V "):
+            f = line.split()
+            d["variables"].append((int(f[1]), f[2], f[3] == "1", None if f[4] == "-" else int(f[4])))
+        elif line.startswith("E "):
+            f = line.split()
+            d["eqs"].append({"pos": int(f[1]), "type": f[2], "nla": None if f[3] == "-" else int(f[3]),
+                             "vars": [] if f[4] == "-" else [(x.split(":")[0], int(x.split(":")[1])) for x in f[4].split(",")],
+                             "deps": ints(f[5]), "sibs": ints(f[6]), "srb": f[7] == "1"})
+        elif line.startswith("A "):
+            head, ast = line.split("\t", 1)
+            d["asts"][int(head.split()[1])] = ast
+    return d
+
+
+def _same_ast_line(a, b, any_number=False):
+    """prefix-form ASTs equal token by token; CN texts may differ in the 15-digit rendering of the same factor
+    (any_number: any two numeric CN texts match, i.e. only the shape is compared)"""
+    ta, tb = a.split(" "), b.split(" ")
+    if len(ta) != len(tb):
+        return False
+    for x, y in zip(ta, tb):
+        if x == y:
+            continue
+        if x.startswith("=") and y.startswith("="):
+            try:
+                if close(float(x[1:]), float(y[1:]), 1e-12, 0.0) or any_number:
+                    continue
+            except ValueError:
+                pass
+        return False
+    return True
+
+
+def scale_cases(r):
+    """for one processed model: [(equation position in the analyser model, case line for `driver scale`, real AST)]
+    — the equation as written (unscaled AST), the factor of every variable it mentions relative to the primary the
+    analyser chose, and the AST the analyser really produced (AnalyserEquation::ast())"""
+    desc, res, prim, info, dump = r["desc"], r["res"], r["prim"], r["info"], r["dump"]
+    if dump is None:
+        return []
+    slot = {}
+    for rec in info["states"]:
+        slot[rec["var"]] = ("state", rec["index"])
+    for rec in info["variables"]:
+        slot[rec["var"]] = (rec["type"], rec["index"])
+    nla_left = [e for e in dump["eqs"] if e["type"] == "nla"]
+    out = []
+    for q in r["recs"]:
+        comp = q["comp"]
+        if q["kind"] == "nla":
+            if not nla_left:
+                continue
+            e = nla_left.pop(0)
+            unknown = "-"
+        else:
+            pk = tuple(prim[q["defines"]])
+            want = slot.get(pk)
+            cands = [e for e in dump["eqs"] if e["type"] != "nla" and want in [(k, i) for k, i in e["vars"]]]
+            if not cands:
+                # the analyser made an NLA system of an equation the reference takes for an assignment (or the other way round)
+                continue
+            e = cands[0]
+            unknown = pk[1]
+        names, diffs = [], []
+        for side in (q["lhs"], q["rhs"]):
+            matheval.variables_in(side, names, diffs)
+        allnames = set(names) | {x for x, t in diffs} | {t for x, t in diffs}
+        facs = []
+        for n in sorted(allnames):
+            key = (comp, n)
+            if key not in res.class_of:
+                continue
+            f = res.m(tuple(prim[res.class_of[key]])) / res.m(key)
+            if abs(f - 1.0) <= 1e-12:
+                continue
+            fr = Fraction(float(f)).limit_denominator(10 ** 12)
+            facs.append("%s=%d/%d,%s,%s" % (n, fr.numerator, fr.denominator, "%.15g" % float(f), "%.15g" % (1.0 / float(f))))
+        raw = ("EQUALITY", None, G.raw_ast(q["lhs"]), G.raw_ast(q["rhs"]))
+        kind = {"ode": "ode", "alg": "algebraic", "nla": "nla"}[q["kind"]]
+        out.append((e["pos"], "%s\t%s\t%s\t%s" % (kind, unknown, ";".join(facs), astgen.line(raw)), dump["asts"].get(e["pos"], "<missing>")))
+    return out
+
+
+def scaling_tie(ctx, rs, mdl, workdir, counters, max_violations=3):
+    """ScaleDefs (extracted) against the analyser: for every equation of every model the AST after unit scaling"""
+    import c03
+    cases, owner = [], []
+    for r in rs:
+        if r["status"] != "ok":
+            continue
+        for pos, line, real in scale_cases(r):
+            cases.append(line)
+            owner.append((r, pos, real))
+    if not cases:
+        return 0, 0
+    got = c03.run_sharded(mdl, "scale", cases, workdir, "scale")
+    bad = 0
+    scaled = 0
+    for (r, pos, real), line, g in zip(owner, cases, got):
+        scaled += ";" in line.split("\t")[2] or bool(line.split("\t")[2])
+        if _same_ast_line(g, real):
+            continue
+        if _same_ast_line(g, real, any_number=True) and any(PREFIX_EXP in v for v in r["class_ids"].values()):
+            # same wraps at the same nodes; the VALUE of a factor differs and the model has units with a prefix and an
+            # exponent on one unit child: Units::scalingFactor (an input of the scaling pass) is what is wrong
+            if ctx.known_finding(PREFIX_EXP, "model %s, equation %d: factor in the analysed AST %s, expected %s" % (
+                    r["model"]["name"], pos, real[:160], g[:160])):
+                counters["findings"][PREFIX_EXP] = counters["findings"].get(PREFIX_EXP, 0) + 1
+                continue
+        bad += 1
+        counters["violations"] += 1
+        if bad <= max_violations:
+            ctx.violation("C03 model %s, equation %d: the analysed (unit-scaled) AST differs from the model ScaleDefs.analysed_ast" % (r["model"]["name"], pos),
+                          "scale_%s_%d.json" % (r["model"]["name"], pos),
+                          {"mode": "model", "name": r["model"]["name"], "meta": r["model"]["meta"], "voi": r["voi"],
+                           "problem": "unit scaling of equation %d" % pos, "case": line, "library_ast": real, "model_ast": g,
+                           "cellml": r["model"]["xml"]})
+    return len(cases), scaled
+
+
+METHODS = (("init", "initialiseVariables"), ("consts", "computeComputedConstants"), ("rates", "computeRates"), ("vars", "computeVariables"))
+
+
+def emitted_slots(c_text):
+    """{method: [array entries assigned / findRoot calls, in order]} parsed from the generated C implementation"""
+    out = {}
+    for key, name in METHODS:
+        m = re.search(r"\nvoid %s\([^)]*\)\s*\{(.*?)\n\}" % name, c_text, flags=re.S)
+        seq = []
+        if m:
+            for line in m.group(1).split("\n"):
+                am = re.match(r"\s*((?:variables|states|rates)\[\d+\]) = ", line)
+                if am:
+                    seq.append(am.group(1))
+                    continue
+                fm = re.match(r"\s*(findRoot\d+)\(", line)
+                if fm:
+                    seq.append(fm.group(1))
+        out[key] = seq
+    return out
+
+
+def order_tie(ctx, rs, order_mdl, workdir, counters, max_violations=3):
+    """OrderDefs / ExternalDefs.method_bodies (extracted) against the generator: for every model the sequence of array
+    entries assigned by each of the four generated methods, exactly; and the ordering claim ordered_all evaluated on the
+    analysed model the library produced"""
+    ok = [r for r in rs if r["status"] == "ok" and r.get("dump") is not None and os.path.exists(r["path"] + ".dump")]
+    if not ok:
+        return {"models": 0}
+    lst = os.path.join(workdir, "order.cases")
+    with open(lst, "w") as f:
+        f.write("".join(r["path"] + ".dump\n" for r in ok))
+    out = vf.sh([order_mdl, lst], timeout=1200)[1].split("\n")
+    stats = {"models": len(ok), "methods_compared": 0, "statements_compared": 0, "order_differs": 0, "ordering_claim_false": 0}
+    bad = 0
+    for r, line in zip(ok, out):
+        real = emitted_slots(r["c"])
+        fields = dict(x.split("=", 1) for x in line.split("\t") if "=" in x)
+        problems = []
+        if not fields:
+            problems.append("model driver: %s" % line[:200])
+        for key, _name in METHODS:
+            model_seq = [x for x in fields.get(key, "").split(",") if x]
+            stats["methods_compared"] += 1
+            stats["statements_compared"] += len(real[key])
+            if model_seq != real[key] and key == "rates" and any(q["state_on_rhs"] for q in r["recs"]) \
+                    and [x.replace("states[", "rates[") for x in real[key]] == model_seq:
+                # d x/d t = x: the analyser swapped the sides, the statement assigns states[i] where the ODE's slot is
+                # rates[i] (C03-state-on-rhs-of-own-ode); the ORDER is the model's
+                if ctx.known_finding(STATE_ON_RHS, "model %s: computeRates assigns %s" % (r["model"]["name"], ",".join(real[key]))):
+                    continue
+            if model_seq != real[key]:
+                problems.append("%s: generated %s, model %s" % (key, ",".join(real[key]), ",".join(model_seq)))
+        if problems:
+            stats["order_differs"] += 1
+        if fields.get("ordered", "111") != "111":
+            stats["ordering_claim_false"] += 1
+            problems.append("ordered_all is false for (consts, rates, vars) = %s: an equation is emitted before a dependency the "
+                            "generator wants (cyclic dependencies?)" % fields.get("ordered"))
+        if problems:
+            bad += 1
+            counters["violations"] += 1
+            if bad <= max_violations:
+                ctx.violation("C03 model %s: emission order: %s" % (r["model"]["name"], "; ".join(problems)[:400]),
+                              "order_%s.json" % r["model"]["name"],
+                              {"mode": "model", "name": r["model"]["name"], "meta": r["model"]["meta"], "voi": r["voi"],
+                               "problem": problems, "dump": open(r["path"] + ".dump").read(), "cellml": r["model"]["xml"]})
+    return stats
 
 
 def code_lines(text, array, index):
@@ -602,6 +806,7 @@ def process(ctx, build, drv, mdl, models, workdir, tag):
             r["error"] = repr(ex)
             continue
         r["desc"], r["res"], r["voi"] = desc, res, voi
+        r["dump"] = parse_dump(open(p + ".dump").read()) if os.path.exists(p + ".dump") else None
         r["c"] = open(p + ".c").read()
         r["h"] = open(p + ".h").read()
         r["py"] = open(p + ".py").read()
@@ -745,6 +950,8 @@ def model_layer(ctx, build, n_models=None):
 
     rs = process(ctx, build, drv, mdl, models, workdir, "mdl")
     counters = {"violations": 0, "findings": {}}
+    order_mdl = _private_copy(vf.ocaml_driver("order"), workdir)
+    order_stats = order_tie(ctx, rs, order_mdl, workdir, counters)
     hist = {"generated": len(gen) - len(gen_failed), "hand_written": len(CORPUS), "generator_failures": len(gen_failed),
             "rejected": 0, "crashed": 0, "reference_failed": 0, "types": {}, "components": {}, "scaled_connections": {},
             "equations": {}, "states": {}, "nla_models": 0, "unsafe_models_by_design": 0, "planted": {}, "ops": {},
@@ -821,7 +1028,7 @@ def model_layer(ctx, build, n_models=None):
             base = r["path"][:-len(".cellml")]
             shutil.rmtree(base + ".cdir", ignore_errors=True)
             shutil.rmtree(base + ".pydir", ignore_errors=True)
-            for ext in (".cellml", ".cellml.c", ".cellml.h", ".cellml.py"):
+            for ext in (".cellml", ".cellml.c", ".cellml.h", ".cellml.py", ".cellml.dump"):
                 try:
                     os.remove(base + ext)
                 except OSError:
@@ -829,6 +1036,9 @@ def model_layer(ctx, build, n_models=None):
     zero = [k for k in G.POSITION_KINDS if not hist["scaled_reference_positions"].get(k)]
     if zero:
         ctx.notes.append("no reference to a scaled variable was generated at position kind(s): %s" % ", ".join(zero))
+    n_scale, n_scaled = scaling_tie(ctx, rs, mdl, workdir, counters)
+    hist["scaling_tie"] = {"equations_compared": n_scale, "with_a_scaled_reference": n_scaled}
+    hist["emission_order_tie"] = order_stats
     hist["findings_observed"] = counters["findings"]
     hist["violations"] = counters["violations"]
     hist["rejected_fraction"] = round(hist["rejected"] / max(1, len(models)), 4)
